@@ -1373,6 +1373,20 @@ class Req:
                 cv = [core.op_const_val(r["a"]), core.op_const_val(r["b"])]
                 if (r["op"] in ("Eq", "Ne", "Gt", "Lt") and 0 in cv) or (r["op"] in ("Ge", "Le") and 1 in cv):
                     okc = True
+        if not (g and okc):
+            # `match aux_level { 0 => .., _ => .. }`: a switch on the level word itself whose 0-edge cannot reach the wide accesses
+            # and whose other edges are the only way to them
+            for b, t in f.iter_terms():
+                if t["k"] != "switch" or f.blocks[b]["cleanup"]:
+                    continue
+                o = flow.origin(f, t["discr"])
+                if o != ("arg", lvl):
+                    continue
+                zero_t = [tg for v, tg in t["targets"] if v == 0]
+                others = [tg for v, tg in t["targets"] if v != 0] + ([t["otherwise"]] if t.get("otherwise") is not None else [])
+                if zero_t and not (flow.reach_from(f, zero_t[0]) & set(wide)) - set() and zero_t[0] not in wide and \
+                        all(gf.paths_need_edges(f, b, others, w) for w in wide):
+                    return (True, "%d multi-byte accesses in %s, reached only through the non-zero arms of a match on the level word" % (len(wide), f.path))
         return (bool(g) and okc, "%d multi-byte accesses in %s, guarded by a zero test of the level word: %s" % (len(wide), f.path, bool(g) and okc))
 
     def r_aux_fresh_level_from_optimal(self):
